@@ -4,7 +4,7 @@ Real code executed symbolically: encode_message, decode_message_len, decode_mess
 execute_server_command.  Stand-ins: pickle -> an opaque injective codec (identity on symbolic bytes), struct '!I' ->
 big-endian arithmetic, uuid.UUID -> a 16-byte wrapper, reader = the readexactly contract over the concatenated stream.
 """
-from vt.world import enter, verdict, cfg, CFG, pick, MODE
+from vt.world import enter, verdict, cfg, CFG, pick, MODE, untraced
 import klongpy.sys_fn_ipc as IPC
 from klongpy.core import KGSym, KGFn, KGLambda, KGFnWrapper, KlongException
 from vt.props.ipcstub import Fut, step, Prov, Loop, patch, unpatch
@@ -778,6 +778,64 @@ def on_klongloop(kind: int, a: int, b: int) -> bool:
         unpatch()
 
 
+# -------------------------------------------------------------------------------- values keep their value AND kind on the wire
+def _wire_values():
+    from klongpy.core import KGChar, KLONG_UNDEFINED
+    import numpy as _np
+    return [("str x", "x"), ("char x", KGChar("x")), ("sym x", KGSym("x")), ("str q", "q"), ("char q", KGChar("q")),
+            ("int 1", 1), ("real 1.0", 1.0), ("str 1", "1"), ("true", True), ("empty str", ""), ("undefined", KLONG_UNDEFINED),
+            ("list", [1, "x", KGChar("x")]), ("dict", {"x": KGChar("x")}), ("array", _np.asarray([1, 2])), ("str long", "x" * 200)]
+
+
+def _same_kind(a, b):
+    import numpy as _np
+    from klongpy.core import KLONG_UNDEFINED
+    if a is KLONG_UNDEFINED or b is KLONG_UNDEFINED:
+        return a is b
+    if type(a) is not type(b):
+        return False
+    if isinstance(a, _np.ndarray):
+        return a.dtype == b.dtype and a.shape == b.shape and bool((a == b).all())
+    if isinstance(a, list):
+        return len(a) == len(b) and all(_same_kind(x, y) for x, y in zip(a, b))
+    if isinstance(a, dict):
+        return list(a) == list(b) and all(_same_kind(a[k], b[k]) for k in a)
+    return a == b
+
+
+def wire_kinds(n: int, i0: int, i1: int, i2: int) -> bool:
+    """
+    pre: 1 <= n <= 3
+    pre: 0 <= i0 < 15 and 0 <= i1 < 15 and 0 <= i2 < 15
+    post: _
+    """
+    # A sequence of 1..3 messages chosen by the solver from a table of values that are easy to confuse (a one-letter string, the
+    # character and the symbol with the same letter, 1 / 1.0 / "1" / true, :undefined ...) goes through the REAL encode_message /
+    # decode_message with the REAL pickle, in one process lifetime: every message must come back with its own value and kind,
+    # whatever was sent before it.
+    enter()
+    import uuid as _uuid
+    table = _wire_values()
+    n = pick([1, 2, 3], n - 1)
+    vals = [pick(table, ix)[1] for ix in [i0, i1, i2][:n]]
+    ok = True
+    with untraced():                              # the chosen messages are concrete values: real pickle at native speed
+        import importlib, copy as _copy
+        ipc = importlib.import_module("klongpy.sys_fn_ipc")
+        # a fresh process lifetime for every path: module-level state of the codec (if any) must not leak between explored paths,
+        # otherwise a counterexample would depend on paths explored earlier and could not be replayed
+        spec = importlib.util.find_spec("klongpy.sys_fn_ipc")
+        ipc = importlib.util.module_from_spec(spec); spec.loader.exec_module(ipc)
+        for j, val in enumerate(vals):
+            raw = ipc.encode_message(_uuid.UUID(int=j + 1), val)
+            mid, got = ipc.decode_message(raw[:16], raw[20:])
+            if mid != _uuid.UUID(int=j + 1) or ipc.decode_message_len(raw[16:20]) != len(raw) - 20:
+                ok = False
+            if not _same_kind(val, got):
+                ok = False
+    return verdict(ok)
+
+
 def bounds(tier):
     q = tier == "quick"
     return {"frames": "2 (payload <= 3 bytes each)" if q else "2 (payload <= 6 bytes) and 3 (payload <= 3 bytes)",
@@ -794,6 +852,8 @@ def obligations(tier):
            {"name": "commands run on the interpreter's loop, never on the IO thread", "fn": "on_klongloop", "cfg": {}, "timeout": 120},
            {"name": "remote operation forms (text, symbol+args, proxy, dictionary get/set) equal the local operation", "fn": "remote_forms",
             "cfg": {}, "timeout": 120}]
+    obs.append({"name": "message sequences keep value and kind through the real encode/decode (real pickle; easily confused values)",
+                "fn": "wire_kinds", "cfg": {}, "timeout": 300})
     if not q:
         obs.append({"name": "framing over abstract lengths: 3 frames", "fn": "frames_abstract", "cfg": {"frames": 3}, "timeout": 1800})
         obs.append({"name": "framing 3 frames payload<=3", "fn": "frames", "cfg": {"frames": 3, "maxlen": 3}, "timeout": 1800})
